@@ -4,6 +4,7 @@ pub mod c02;
 pub mod c04;
 pub mod c03;
 pub mod c10;
+pub mod specmon;
 pub mod c14;
 pub mod c15;
 pub mod c16;
@@ -28,6 +29,11 @@ pub fn run(ctx: &Ctx) -> i32 {
         "C02" => c02::run(ctx),
         "C04" => c04::run(ctx),
         "C03" => c03::run(ctx),
+        "C05" => specmon::run_c05(ctx),
+        "C06" => specmon::run_c06(ctx),
+        "C07" => specmon::run_c07(ctx),
+        "C08" => specmon::run_c08(ctx),
+        "C09" => specmon::run_c09(ctx),
         "C10" => c10::run(ctx),
         "C14" => c14::run(ctx),
         "C15" => c15::run(ctx),
